@@ -22,7 +22,7 @@ def sweep(rng, n):
 oracle_search = propgen.budgeted([sweep])
 
 
-oracle_at = propgen.definitional_oracle_at(['io_delimited', 'io_wrappers'], 'the loader returns exactly what the file encodes / raises as specified')
+oracle_at = propgen.chained(propgen.point_oracle(ID), propgen.definitional_oracle_at(['io_delimited', 'io_wrappers'], 'the loader returns exactly what the file encodes / raises as specified'))
 
 
 def diagnose(b):
